@@ -108,7 +108,8 @@ func oracleReach() Oracle {
 			if !reach[nk] {
 				d := raw.Nodes[nk]
 				vv := viol("reach-garbage", "stored node %v {key %q h%d} is not reachable from any retained version %v", nk, d.Key, d.Height, m.Versions())
-				vv.Facts = map[string]any{"garbage_nonce": int(nk.Nonce), "garbage_leaf": d.Height == 0, "garbage_version_retained": m.Has(nk.Version)}
+				vv.Facts = map[string]any{"garbage_nonce": int(nk.Nonce), "garbage_leaf": d.Height == 0, "garbage_version_retained": m.Has(nk.Version),
+					"garbage_version": nk.Version, "garbage_key": string(d.Key), "garbage_height": int(d.Height)}
 				return vv
 			}
 		}
